@@ -15,7 +15,7 @@ a Deferred fired by a timer after a latency, or one fired by hand / never; the
 tape also issues stop() (from outside and from inside the function), reset()
 and restarts.
 
-Two further families (per-run knobs, each off in a third of the runs):
+Three further families (per-run knobs, each off in a third of the runs):
 
   failures outside Exception   what the function raises, and what its Deferred fails with, is drawn also from
               BaseException subclasses that are NOT Exception subclasses (a harness-defined Stop, KeyboardInterrupt,
@@ -25,6 +25,12 @@ Two further families (per-run knobs, each off in a third of the runs):
   near-boundary amounts   clock steps and Deferred latencies are also aimed at the model's grid: they end
               2**-k intervals (k in 3..16) before or after - or exactly on - one of the next boundaries, so calls
               complete a hair before / after a boundary and not only at the coarse fractions of the tables below.
+
+  function takes time   the looped function blocks: the clock moves from inside the call (by a table or near-boundary
+              amount, within one interval or across one / several boundaries) before it returns, raises, stops the loop or
+              hands out its Deferred - also inside start() for the immediate call.  The call is *entered* at one reading
+              (where its count is judged: boundaries elapsed up to the invocation) and *completes* at a later one (from
+              which the next boundary is taken; a latency starts there).
 
 Oracle: a reference model written from the property statement in exact
 rational arithmetic (fractions.Fraction): the boundary grid start + k*interval,
@@ -66,6 +72,9 @@ RULE = ("run = one LoopingCall (dyadic interval, now flag, plain/withCount, cloc
         "clock steps and latencies come from tables of coarse multiples of the interval or (weight knob, off in 1/3 of the runs) are aimed at the grid: they end "
         "2**-k intervals (k in 3..16) before / after, or exactly on, one of the next four boundaries, so calls complete (Deferred fired, or late synchronous call "
         "after a jump) a hair before or after a boundary; "
+        "the function may also take time synchronously (weight knob, off in 1/3 of the runs): the clock is moved from inside the call by a table / near-boundary "
+        "amount - within an interval or across one or several boundaries, also inside start() - before the drawn behaviour happens (stop-inside before or after "
+        "the wait); the count is judged at the reading on entry, the completion and the next boundary at the reading on return; "
         "on withCount loops every count is compared with the model, before and after reset() (reset strictly between two boundaries, on a boundary, before the first call, "
         "after a late call, after a slow Deferred, several in a row); "
         "non-trivial = at least 2 calls AND (a completion off the boundary grid, a clock overshoot, a stop or a reset occurred)")
@@ -76,7 +85,11 @@ ASSUMPTIONS = ["interval > 0 and all times are dyadic rationals (exact in binary
                "function through maybeDeferred, which has a single `except BaseException`); GeneratorExit is never used",
                "near-boundary amounts stay at least 2**-16 interval away from a boundary (or exactly on it) and all times stay below 2**15 s, so every "
                "quantity the LoopingCall computes is exact in a double; the float-absorption guard of _scheduleFrom is outside the quantifier",
-               "start() is not called again while a previous call's Deferred is still outstanding (caller error outside the statement)",
+               "start() is not called again while a previous call is in progress or its Deferred is still outstanding, i.e. not from inside the looped "
+               "function after a stop() there and not between a stop() and the firing of the previous start()'s Deferred (the statement speaks about one "
+               "start(); the unchanged code then keeps two timers and drops the first start()'s Deferred - observation, no verdict)",
+               "a function that takes time synchronously moves the clock itself while no timer is pending (the LoopingCall has none during a call); its count "
+               "is 'boundaries elapsed' as of the invocation (reading on entry), boundaries that go by while it runs are reported by the next call",
                "withCount and reset(): until the first effective reset() the sum clause is checked as a running total from start(); once reset() has moved the "
                "boundary grid it is checked per call on the grid in force (count == boundaries in (previous invocation, this invocation]); the first call "
                "after a reset gets a verdict (count == boundaries of the NEW grid elapsed since the reset) only if nothing was owed at the reset, i.e. no "
@@ -273,8 +286,10 @@ def run(sim):
     bare_w = sim.draw_choice([0, 1, 3], "bare_exception_weight")
     # weight of the near-boundary amounts among clock steps and latencies (against 6 for the tables); 0 = none
     fine_w = sim.draw_choice([0, 1, 3], "near_boundary_weight")
+    # weight of "the function takes time synchronously" (the clock moves while it runs) against 6 for "takes no time"; 0 = never
+    block_w = sim.draw_choice([0, 1, 3], "blocking_call_weight")
     sim.config = {"family": family, "interval": interval, "now": now_flag, "withCount": counted, "offset": offset, "nops": nops,
-                  "bare_exception_weight": bare_w, "near_boundary_weight": fine_w}
+                  "bare_exception_weight": bare_w, "near_boundary_weight": fine_w, "blocking_call_weight": block_w}
 
     if family == "task-clock":
         clk = task.Clock()
@@ -345,6 +360,28 @@ def run(sim):
             elif off < m.I / 64:
                 sim.probe("completion_less_than_64th_interval_after_boundary")
 
+    def pass_time(dt):
+        """Time passes while the looped function runs (it blocks): the clock moves from inside the call, as in Twisted's own
+        test_callbackTimeSkips.  No timer is pending at that point (the LoopingCall has none during a call, the scenario's
+        latency timers exist only while a Deferred is outstanding), so this is a pure move of the clock on either clock class."""
+        if family == "task-clock":
+            clk.advance(dt)
+        else:
+            clk.jump(dt)
+
+    def advance_exact(dt):
+        """SimClock.advance(dt) - every timer runs exactly at its own time - for functions that may move the clock themselves:
+        it stops at now + dt unless a call has already carried the clock beyond that (never moves time backwards)."""
+        target = clk.seconds() + dt
+        while True:
+            nxt = clk.next_time()
+            if nxt is None or nxt > target:
+                break
+            clk.run_next()
+        rest = target - clk.seconds()
+        if rest > 0:
+            clk.advance(rest)
+
     def fire(d, ok):
         """Complete a call's Deferred (from a latency timer or by hand)."""
         t = clk.seconds()
@@ -364,6 +401,7 @@ def run(sim):
         sim.event("call", t, "-" if count is None else count)
         sim.check("no-call-after-finish", m.running, "call", "function called at t=%s after stop()/failure" % t)
         sim.check("no-overlap", not m.outstanding, "call", "function called at t=%s while the previous call's Deferred is unfired" % t)
+        in_start = m.immediate
         if m.immediate:
             m.immediate = False
             sim.check("immediate-call-at-start", Fraction(t) == m.origin, "call", "t=%s origin=%s" % (t, m.origin))
@@ -409,16 +447,42 @@ def run(sim):
         kind = sim.draw_weighted([("return", 8), ("latency-ok", 5), ("manual", 2), ("fired-ok", 1), ("stop-inside", 1),
                                   ("latency-fail", 1), ("raise", 1), ("fired-fail", 1)], "behaviour")
         sim.event("behaviour", kind)
-        if not st["exact"] and kind in ("return", "stop-inside", "raise", "fired-ok", "fired-fail"):
-            note_completion(t)      # completes synchronously: off the grid only when the clock overshot
+        blocked = False
+        stopped_early = False
+        if block_w and sim.draw_weighted([(False, 6), (True, block_w)], "blocks"):
+            # the function takes time synchronously before it returns / raises / hands out its Deferred: the call was entered
+            # at t (that is where its count is judged) and completes - or its Deferred's latency starts - at the later reading
+            blocked = True
+            if kind == "stop-inside" and sim.draw_bool(0.5, "stop_before_blocking"):
+                stopped_early = True
+                st["stops"] += 1
+                sim.probe("stop_inside_call")
+                m.stop()
+                lc.stop()
+            blk = amount(lat_table, "block")
+            sim.event("block", blk)
+            pass_time(blk)
+            crossed = m.boundaries_between(t, clk.seconds())
+            t = clk.seconds()
+            if crossed:
+                sim.fault("function_blocked_across_boundary")
+                if crossed > 1:
+                    sim.probe("function_blocked_across_several_boundaries")
+            else:
+                sim.probe("function_blocked_within_interval")
+            if in_start:
+                sim.probe("function_blocked_inside_start")
+        if (blocked or not st["exact"]) and kind in ("return", "stop-inside", "raise", "fired-ok", "fired-fail"):
+            note_completion(t)      # completes synchronously: off the grid only when the clock overshot or the function took time
         if kind == "return":
             m.complete(t, True)
             return None
         if kind == "stop-inside":
-            st["stops"] += 1
-            sim.probe("stop_inside_call")
-            m.stop()
-            lc.stop()
+            if not stopped_early:
+                st["stops"] += 1
+                sim.probe("stop_inside_call")
+                m.stop()
+                lc.stop()
             m.complete(t, True)
             return None
         if kind == "raise":
@@ -528,7 +592,7 @@ def run(sim):
                 with Escape(sim, "no-raise", "clock"):
                     if mode == "advance":
                         st["exact"] = True
-                        clk.advance(dt)
+                        advance_exact(dt)
                         full = True
                     elif mode == "run_next":
                         st["exact"] = True
@@ -573,6 +637,10 @@ def run(sim):
 
 
 MUTANTS = [
+    "seeded C10-r6a: withCount counter sets _realLastTime in a finally AFTER countCallable returned (fresh clock reading): boundaries that pass while the "
+    "function itself runs are never reported: CAUGHT count-sum / count-after-reset (was missed while no function took time synchronously)",
+    "task.py __call__ remembers the reading on entry and cb reschedules from it when the function returned None (a function that took longer than an "
+    "interval gets a timer in the past / on a boundary already gone): CAUGHT schedule-on-boundary (equivalent before functions took time)",
     "seeded C10-r5a: __call__ invokes f directly inside try/except Exception instead of maybeDeferred (a KeyboardInterrupt/SystemExit/CancelledError of the "
     "function escapes, start()'s Deferred is lost): CAUGHT no-raise:clock:<type> / no-raise:start:<type> / start-deferred-fired (was missed while only "
     "Exception subclasses were raised)",
